@@ -16,6 +16,9 @@ signature function are found through the call graph / by name, wrappers included
      (key and expression from the same item; sequences of names and signatures re-joined in the same order);
  D3a the class attribute signatures are computed from is a private copy taken when the expressions were compiled;
  D3b the function table an evaluator evaluates with is its own object: a shared table is never updated in place;
+ D3c (round 12, value side only) where the evaluation looks names up, the variable assignment of the call is consulted before
+     every function table: eval's locals before its globals; a namespace merged from several mappings (`{**a, **b}`,
+     `dict(a, **b)`, `a | b`, `ChainMap`, `.update` / `|=` between creation and use) is taken apart in lookup order;
  D4  a declared sweep value reaches the evaluation as the number that was written (spec creation, value listing, sweep steps,
      and - round 11 - the variable namespace handed to eval: not rebuilt through a conversion into floating point, be it
      written in place or inside a helper that hands its argument back, unless the path tests for a floating-point class).
@@ -1383,6 +1386,142 @@ def snapshot_rule(repo: Repo, R: Report, src_attrs: Set[str]) -> None:
                     f"the expression source the signatures are computed from is {why}: the expressions were compiled when the class was created, the signature is computed later from what the mapping holds then - after the caller re-uses or edits the mapping, sweeps that evaluate `a - b` and `b - a` publish the same signature", st.lineno)
 
 
+def _is_assignment(f: ast.AST, g: ast.AST) -> bool:
+    """*g*, a namespace the evaluating function *f* evaluates in, is (computed from) the variable assignment *f* was called with."""
+    if isinstance(g, ast.Name) and g.id in _params(f) and not _defs_of(f, g.id):
+        return True
+    return bool(_param_roots(f, g) - {"self", "cls"})
+
+
+def _top_stmt(f: ast.AST, n: ast.AST) -> Optional[ast.AST]:
+    """The statement of the body of *f* (top level) that contains *n*."""
+    chain = [n] + list(ancestors(n))
+    for x in chain:
+        if any(x is st for st in f.body):
+            return x
+    return None
+
+
+def _mapping_parts(f: ast.AST, e: Optional[ast.AST], at: ast.AST, depth: int = 0) -> List[ast.AST]:
+    """The mappings the mapping *e* (read at statement *at* of *f*) is merged from, in lookup priority (the first one that has
+    a key decides).  What is not a merge of a known shape is one part of its own; entries written out with constant values
+    (`"__builtins__": {}`) bind no name of an expression and are left out; entries written out with other values are a table."""
+    if e is None or (isinstance(e, ast.Constant) and e.value is None):
+        return []
+    if depth > 6:
+        return [e]
+    if isinstance(e, ast.Dict):
+        out: List[ast.AST] = []
+        lit_k, lit_v = [], []
+
+        def flush():
+            if lit_k:
+                d = ast.Dict(keys=list(lit_k), values=list(lit_v))
+                ast.copy_location(d, e)
+                out.insert(0, d)
+                lit_k.clear()
+                lit_v.clear()
+
+        for k, v in zip(e.keys, e.values):
+            if k is None:
+                flush()
+                out[0:0] = _mapping_parts(f, v, at, depth + 1)
+            elif isinstance(v, ast.Constant) or (isinstance(v, (ast.Dict, ast.List, ast.Tuple, ast.Set)) and not ast.dump(v).count("Name(")):
+                continue
+            else:
+                lit_k.append(k)
+                lit_v.append(v)
+        flush()
+        return out
+    if isinstance(e, ast.BinOp) and isinstance(e.op, ast.BitOr):
+        return _mapping_parts(f, e.right, at, depth + 1) + _mapping_parts(f, e.left, at, depth + 1)
+    if isinstance(e, ast.Call):
+        nm = call_attr(e)
+        plain = not isinstance(e.func, ast.Attribute) or isinstance(e.func.value, ast.Name) and e.func.value.id in ("collections", "copy", "types", "typing", "t")
+        if plain and nm in ("dict", "OrderedDict") and len(e.args) <= 1 and not any(isinstance(a, ast.Starred) for a in e.args):
+            out = []
+            for a in list(e.args) + [k.value for k in e.keywords if k.arg is None]:
+                out[0:0] = _mapping_parts(f, a, at, depth + 1)
+            named = [k for k in e.keywords if k.arg is not None and not isinstance(k.value, ast.Constant)]
+            if named:
+                d = ast.Dict(keys=[ast.Constant(value=k.arg) for k in named], values=[k.value for k in named])
+                ast.copy_location(d, e)
+                out.insert(0, d)
+            return out
+        if plain and nm == "ChainMap" and not any(isinstance(a, ast.Starred) for a in e.args) and not e.keywords:
+            out = []
+            for a in e.args:
+                out.extend(_mapping_parts(f, a, at, depth + 1))
+            return out
+        if plain and nm in ("cast",) and len(e.args) == 2:
+            return _mapping_parts(f, e.args[1], at, depth + 1)
+        if plain and nm in ("copy", "deepcopy", "MappingProxyType") and len(e.args) == 1 and not e.keywords:
+            return _mapping_parts(f, e.args[0], at, depth + 1)
+        if isinstance(e.func, ast.Attribute) and e.func.attr == "copy" and not e.args and not e.keywords:
+            return _mapping_parts(f, e.func.value, at, depth + 1)
+        return [e]
+    if isinstance(e, ast.Name):
+        unions = [n for n in walk_no_nested(f) if isinstance(n, ast.AugAssign) and isinstance(n.target, ast.Name) and n.target.id == e.id and isinstance(n.op, ast.BitOr)]
+        defs = _defs_of(f, e.id)
+        plain = [d for d in defs if d is not None]
+        if len(plain) != 1 or len(defs) != 1 + len(unions) or e.id in _params(f):
+            return [e]
+        top_def, top_at = _top_stmt(f, plain[0]), _top_stmt(f, at)
+        if top_def is None or top_at is None or not isinstance(top_def, (ast.Assign, ast.AnnAssign)):
+            return [e]
+        idx = {id(st): i for i, st in enumerate(f.body)}
+        lo, hi = idx[id(top_def)], idx[id(top_at)]
+        if lo >= hi:
+            return [e]
+        out = _mapping_parts(f, plain[0], top_def, depth + 1)
+        # what is laid over it, in place, between its creation and the evaluation: statements of the body in between, also under
+        # `if` (a merge that happens on some path decides the lookup order on that path); anything else that changes the
+        # mapping in place makes it one part of unknown make-up
+        changes: List[ast.AST] = []
+        for n in walk_no_nested(f):
+            tgt = None
+            if isinstance(n, ast.Call) and isinstance(n.func, ast.Attribute) and n.func.attr in _MUT | {"__ior__"}:
+                tgt = n.func.value
+            elif isinstance(n, (ast.Assign, ast.Delete)):
+                tgt = next((t.value for t in n.targets if isinstance(t, ast.Subscript)), None)
+            elif isinstance(n, ast.AugAssign):
+                tgt = n.target.value if isinstance(n.target, ast.Subscript) else n.target
+            if isinstance(tgt, ast.Name) and tgt.id == e.id:
+                changes.append(n)
+        for n in sorted(changes, key=lambda x: (x.lineno, x.col_offset)):
+            if isinstance(n, ast.Assign) and all(isinstance(t, ast.Subscript) and isinstance(t.slice, ast.Constant) for t in n.targets) \
+                    and (isinstance(n.value, ast.Constant) or isinstance(n.value, ast.Dict) and not n.value.keys):
+                continue  # `scope["__builtins__"] = {}` binds no name of an expression
+            st = stmt_of(n)
+            top = _top_stmt(f, st)
+            chain = [st] + list(ancestors(st))
+            inner = chain[:next(i for i, x in enumerate(chain) if x is top) + 1] if top is not None else []
+            if top is None or not (lo < idx[id(top)] < hi) or not all(isinstance(x, ast.If) for x in inner[1:]):
+                return [e]
+            if isinstance(st, ast.Expr) and st.value is n and isinstance(n, ast.Call) and n.func.attr == "update" and len(n.args) <= 1 and not any(isinstance(x, ast.Starred) for x in n.args):
+                for x in list(n.args) + [k.value for k in n.keywords if k.arg is None]:
+                    out[0:0] = _mapping_parts(f, x, st, depth + 1)
+                named = [k for k in n.keywords if k.arg is not None and not isinstance(k.value, ast.Constant)]
+                if named:
+                    d = ast.Dict(keys=[ast.Constant(value=k.arg) for k in named], values=[k.value for k in named])
+                    ast.copy_location(d, n)
+                    out.insert(0, d)
+            elif st is n and isinstance(n, ast.AugAssign) and isinstance(n.target, ast.Name) and isinstance(n.op, ast.BitOr):
+                out[0:0] = _mapping_parts(f, n.value, st, depth + 1)
+            else:
+                return [e]
+        return out
+    return [e]
+
+
+def _lookup_order(f: ast.AST, c: ast.Call) -> List[ast.AST]:
+    """The mappings `eval(code, globals, locals)` resolves a name of the code in, the one consulted first at the head."""
+    g = c.args[1] if len(c.args) > 1 else kwarg(c, "globals")
+    loc = c.args[2] if len(c.args) > 2 else kwarg(c, "locals")
+    at = stmt_of(c)
+    return _mapping_parts(f, loc, at) + _mapping_parts(f, g, at)
+
+
 def evaluator_rule(repo: Repo, R: Report) -> None:
     from ..normal import nfunc
 
@@ -1417,19 +1556,32 @@ def evaluator_rule(repo: Repo, R: Report) -> None:
         raise AnalysisError("evaluation site (eval with an explicit globals table) not reachable from the sweep factory")
     EVAL_SITES.clear()
     EVAL_SITES.extend(sites)
+    # (the value side of the property: not re-applied by the checks that only ask what a signature identifies - C04, C05)
+    value_side = not getattr(R, "rule_prefix", "")
+    rp = value_side and R.rule("C12-D3c-precedence", "a name of the expression that the variable assignment of a call binds denotes that variable: where the evaluation looks names up, the assignment is consulted before every function table (eval's locals before its globals; in a merged mapping the later entry wins), so a sweep variable named like a table function (min, max, abs, ..) is not silently replaced by the function", 1)
     tables: List[Tuple[object, ast.AST, ast.Call, ast.AST]] = []
     for m, f, c in sites:
-        # namespaces of the evaluation, in either position (names are looked up in both): the one that is a parameter of the
-        # evaluating function is the variable assignment of this call; every other one is a function table
-        spaces = list(c.args[1:3]) + [k.value for k in c.keywords if k.arg in ("globals", "locals")]
-        # (a namespace computed from the parameters of the evaluating function is still the variable assignment: what may
-        # happen to its values on the way is decided by C12-D4)
-        own = [g for g in spaces if not (isinstance(g, ast.Name) and g.id in _params(f) and not _defs_of(f, g.id))
-               and not (isinstance(g, ast.Constant) and g.value is None)
-               and not (_param_roots(f, g) - {"self", "cls"})]
+        # namespaces of the evaluation, in either position (names are looked up in both), each taken apart into the mappings it
+        # is merged from, in lookup order: a part that is (computed from) a parameter of the evaluating function is the variable
+        # assignment of this call (what may happen to its values on the way is decided by C12-D4); every other one is a
+        # function table
+        order = _lookup_order(f, c)
+        own = [g for g in order if not _is_assignment(f, g)]
         if not own:
             raise AnalysisError(f"{m.rel}:{qualname_of(f)}: `{norm(c)}` evaluates without a function table of its own (shape not understood)")
         tables.extend((m, f, c, g) for g in own)
+        if not value_side:
+            continue
+        shadow = None
+        for i, g in enumerate(order):
+            if not _is_assignment(f, g):
+                later = next((v for v in order[i + 1:] if _is_assignment(f, v)), None)
+                if later is not None:
+                    shadow = (g, later)
+                    break
+        R.check(shadow is None, rp, m.rel, qualname_of(f), norm(stmt_of(c)),
+                (f"`{norm(c)}` looks a name up in the function table `{_u(shadow[0])}` before the variable assignment `{_u(shadow[1])}` of the call: a sweep variable named like a table function (min, max, abs, ..) evaluates as the function, so the expression no longer computes the value its signature (which names the variable) stands for - `x if max == 0 else -x` takes the same branch for every value of `max`") if shadow else "",
+                c.lineno)
     for m, f, c, g in tables:
         cls = next((a for a in ancestors(f) if isinstance(a, ast.ClassDef)), None)
         mod_level = {t.id for st in m.tree.body if isinstance(st, (ast.Assign, ast.AnnAssign)) for t in (st.targets if isinstance(st, ast.Assign) else [st.target]) if isinstance(t, ast.Name)}
@@ -1490,6 +1642,9 @@ def evaluator_rule(repo: Repo, R: Report) -> None:
                 for d in _defs_of(fn2, g.id):
                     if d is not None:
                         owners.append((fn2, stmt_of(d), d))
+        if not owners and isinstance(g, ast.Dict):
+            R.ok(r, m.rel, qualname_of(f), norm(stmt_of(c)))  # functions written out at the evaluation: a fresh table per call
+            continue
         if not owners:
             raise AnalysisError(f"{m.rel}:{qualname_of(f)}: where the globals table of `{norm(c)}` is created could not be told")
         for fn2, st, val in owners:
